@@ -31,8 +31,7 @@ def wStr (ws : List WFrame) : String :=
 def devStr (ds : List Reader.Dev) : String :=
   if ds.isEmpty then "-" else joinWith "," (ds.map fun d =>
     match d with
-    | .rsv1Control => "rsv1ctl" | .rsv1Continuation => "rsv1cont" | .close1 => "close1"
-    | .len64Msb => "msb" | .lengthOverflow => "overflow")
+    | .len64Msb => "msb")
 
 def parseInf (s : String) : Option (List (Bytes × Option Bytes)) :=
   if s == "" || s == "-" then some [] else
